@@ -43,7 +43,7 @@ def bounds(tier):
                            c='tessellate 1..3 surfaces x procs {2,4}; voxelize 2x2x2 x procs {2,4}: <=2 deviations (4: all for <=4 chunks)',
                            d='4 cache sizes'),
                 thorough=dict(a='curves p<=4 / surfaces degrees<=3', b='5 affine ranges, more shapes',
-                              c='tessellate 1..4 surfaces x procs {2,4,8}; voxelize 2x2x2 and 3x2x2 x procs {2,4,8}: all set partitions',
+                              c='tessellate 1..4 surfaces x procs {2,4,8}; voxelize grids with 8, 12, 18, 45 voxels x procs {2,4,8}: all set partitions of the chunks when a map call has <= 8 chunks, otherwise every schedule with <= 2 deviations from the default',
                               d='4 cache sizes'))[tier]
 
 
